@@ -82,6 +82,10 @@ GARBAGE = {
     "for_break": "for e14 in [[i], [i], [i]] { acc = acc + 1; if acc > 0 { break; } }",
     "while_break": "var w1 = [i]; while true { w1 = [w1]; if w1.len() > 0 { break; } }",
     "for_continue": "for e17 in [[i], [i]] { if acc >= 0 { continue; } acc = acc + 1; }",
+    # a block with a local of its own whose LAST statement is an if/else (try/catch) whose else (catch) block declares locals:
+    # the two scope ends meet at a jump target
+    "block_ending_in_if_else": "{ var q1 = [i]; if acc >= 0 { acc = acc + 1; } else { var q2 = 1; var q3 = 2; acc = acc + q2 + q3; } }",
+    "block_ending_in_try_catch": "{ var q4 = [i]; var q5 = (i, 1); try { acc = acc + q4.len(); } catch e18 { var q6 = 1; acc = acc + q6; } }",
     # class declarations that fail half-way (between declaring the name and defining the class)
     "class_decl_undefined_base": "try { #[derive(NoSuchBase)] class Tmp1 { fn m(self) { return 1; } } } catch e15 { acc = acc + 1; }",
     "class_decl_bad_base": "try { var nb = [i]; #[derive(nb)] class Tmp2 { fn m(self) { return 1; } } } catch e16 { acc = acc + 1; }",
